@@ -270,7 +270,14 @@ def run(prop, tier, seed):
         traces = []
         for fin, fout, p in res:
             if p is not None:
-                raise InfraError(f"engine A died on {fin}:\n" + (p.stdout or "")[-3000:] + (p.stderr or "")[-2000:])
+                # a panic of the code under test on one of its own goroutines (AofChannel, ack handlers) kills the driver:
+                # a verdict only if the history in flight dies the same way when it runs alone; what the shard recorded up
+                # to there is still validated
+                cv = engine.crash_verdict(prop, binp, "TestVerifAck", fin, fout, p, os.path.join(wd, "crash"))
+                if cv is None:
+                    raise InfraError(f"engine A died on {fin}:\n" + (p.stdout or "")[-3000:] + (p.stderr or "")[-2000:])
+                out.viols.append(cv)
+                engine.drop_unfinished(fout)
             traces.append(fout)
         # (4) monitor
         t1 = time.time()
